@@ -74,6 +74,12 @@ func zzH16body() {
 		if k > 0 {
 			zzAssume(zzNot(t.Before(now)))
 		}
+		if !mono {
+			// wall-clock-only readings (which time.Now never returns): at most a
+			// century before the daemon's start. Further back, epoch+lifetime-now
+			// exceeds the range of time.Duration and Time.Sub saturates.
+			zzAssume(t.Unix() >= epoch.Unix()-3153600000)
+		}
 		now = t
 		readings = nil
 		ra := &ndp.RouterAdvertisement{}
